@@ -15,6 +15,8 @@ the contract to attach and the proof hints to inject.
                                      `//# tag KNOWN <finding-id>` marks an expected-fail clause
     @before `tokens` [#n]            following lines are injected before the n-th occurrence of the token sequence
     @after `tokens` [#n]
+    @before-stmt `tokens` [#n]       injected before the STATEMENT that contains the n-th occurrence of the tokens (the call may be
+                                     wrapped in `if let Err(e) = ..`, `match ..`, `..?;` - the hint does not care)
     @before? / @after?               the same, but the injection is skipped when the anchor does not occur (used for the
                                      invariants and hints of a loop: without the loop they have no meaning; a loop that
                                      is there without them is refused by Verus for lack of a decreases clause)
@@ -59,7 +61,7 @@ class Unit:
         self.hoists = {}
 
 
-INJ = re.compile(r"@(before\??|after\??)\s+`(.*)`\s*(?:#(\d+))?\s*$")
+INJ = re.compile(r"@(before-stmt|before\??|after\??)\s+`(.*)`\s*(?:#(\d+))?\s*$")
 
 
 def parse_recipe(path, name):
